@@ -581,6 +581,42 @@ fn gen_single_edits(strings: &[String], max_strings_len: usize) -> Vec<Case> {
     out
 }
 
+/// Malformed strings that carry a VALID checksum of their own body (parsers strip and verify the
+/// checksum first and then run on the remaining body, with different length bookkeeping).
+fn gen_checksummed(strings: &[String], short_len: usize) -> Vec<Case> {
+    let mut bodies: Vec<String> = vec![];
+    for c in gen_short_strings(short_len) {
+        bodies.push(String::from_utf8_lossy(&c.payload).to_string());
+    }
+    for c in gen_token_sequences(2) {
+        bodies.push(String::from_utf8_lossy(&c.payload).to_string());
+    }
+    let short_valid: Vec<String> = strings.iter().filter(|s| s.len() <= 26 && !s.contains('#')).cloned().collect();
+    for c in gen_single_edits(&short_valid, 26) {
+        bodies.push(String::from_utf8_lossy(&c.payload).to_string());
+    }
+    for s in strings.iter().filter(|s| !s.contains('#')) {
+        // every truncation of every valid string
+        for cut in 0..s.len() {
+            if s.is_char_boundary(cut) {
+                bodies.push(s[..cut].to_string());
+            }
+        }
+    }
+    bodies.sort();
+    bodies.dedup();
+    let mut out = vec![];
+    for b in bodies {
+        if b.contains('#') {
+            continue;
+        }
+        if let Some(cs) = crate::c10::descsum_create(&b) {
+            out.push(scase(format!("{}#{}", b, cs), "valid-checksum-on-malformed-body", 3000));
+        }
+    }
+    out
+}
+
 fn gen_scaling() -> Vec<Case> {
     let mut out = vec![];
     let b = 20_000u64;
@@ -1064,6 +1100,7 @@ pub fn run(tier: Tier) -> i32 {
     let vs = valid_strings(edit_nodes);
     groups.push(("single-edits", gen_single_edits(&vs, tier.pick(60, 200))));
     groups.push(("valid-strings", vs.iter().map(|s| scase(s.clone(), "valid-string", 3000)).collect()));
+    groups.push(("checksummed", gen_checksummed(&vs, short_len.min(3))));
     groups.push(("scaling", gen_scaling()));
     groups.push(("scripts", gen_scripts(script_len, script_nodes)));
     groups.push(("interpreter", gen_interp()));
@@ -1115,7 +1152,7 @@ pub fn run(tier: Tier) -> i32 {
         done,
         total,
         done.min(total),
-        "string parsers (22 entry points per string): all strings up to the length bound over a 22-character alphabet, all grammar-token sequences up to the token bound, every single edit of every valid string from the term enumeration, scaling probes (nesting 400..200000, width up to 100000, megabyte names, 1..40-digit numbers); script decoder: token sequences, raw bytes, truncations and opcode substitutions of valid scripts, deep/wide scripts; interpreter: standard spk templates and truncations x scriptSigs x witness sequences, and every B term up to the term bound (full leaf alphabet) as wsh script and tr leaf x every witness stack up to the stack bound over {<>, <1>, signature, 32 bytes, key}; PSBT: every fully-populated reachable state of 5 descriptor pairs with each field dropped / emptied / replaced by a boundary value, through finalize*, extract, update_*, sighash_msg; planner: descriptors over origin-less and origin-carrying keys x asset fingerprints x derivation paths x CanSign/time-lock flags. non-trivial = cases completed by the workers",
+        "string parsers (22 entry points per string): all strings up to the length bound over a 22-character alphabet, all grammar-token sequences up to the token bound, every single edit of every valid string from the term enumeration, malformed bodies (short strings, token pairs, single edits and every truncation of valid strings) carrying a valid checksum of themselves, scaling probes (nesting 400..200000, width up to 100000, megabyte names, 1..40-digit numbers); script decoder: token sequences, raw bytes, truncations and opcode substitutions of valid scripts, deep/wide scripts; interpreter: standard spk templates and truncations x scriptSigs x witness sequences, and every B term up to the term bound (full leaf alphabet) as wsh script and tr leaf x every witness stack up to the stack bound over {<>, <1>, signature, 32 bytes, key}; PSBT: every fully-populated reachable state of 5 descriptor pairs with each field dropped / emptied / replaced by a boundary value, through finalize*, extract, update_*, sighash_msg; planner: descriptors over origin-less and origin-carrying keys x asset fingerprints x derivation paths x CanSign/time-lock flags. non-trivial = cases completed by the workers",
         true,
     )
 }
